@@ -282,6 +282,7 @@ class Skedder(object):
                                                   tasker.period))  # append allows for period change
 
                             except StopIteration: #generator returned instead of yielded
+                                status = ABORTED
                                 aborted.append((tasker, stamp, period))
                                 console.profuse("     Tasker Aborted due to StopIteration: {0}\n".format(tasker.name))
 
